@@ -3,7 +3,7 @@
     stated with the same [truthy_spec]). *)
 From Coq Require Import List Bool NArith.
 From JL Require Import Base.Json Base.F64 Base.Monad Model.Ops Spec.Specs Spec.OpSpecs.
-From JL Require Import Proofs.Truthy Proofs.Logic Proofs.Arrays.
+From JL Require Import Proofs.Truthy Proofs.Logic Proofs.Arrays Proofs.ModelLaws.
 Import ListNotations.
 
 (** the model's single truthiness function is the table of the property *)
@@ -44,3 +44,10 @@ Example C06_corner_values :
   map truthy_spec [Str [48%N]; Arr [Num (PosInt 0%N)]; Arr [Arr []]; Obj []; Num (Float (SpecFloat.S754_zero true))]
   = [true; true; true; true; false].
 Proof. reflexivity. Qed.
+
+(** every object, every non-empty array and every non-empty string is truthy for the code
+    (Proofs/ModelLaws.v), whatever they contain *)
+Theorem C06_code_containers :
+  forall m x l c s, truthy (Obj m) = true /\ truthy (Arr (x :: l)) = true /\ truthy (Str (c :: s)) = true.
+Proof. exact (fun m x l c s => conj (code_truthy_obj m) (conj (code_truthy_arr_nonempty x l) (code_truthy_str_nonempty c s))). Qed.
+Print Assumptions C06_code_containers.
